@@ -104,6 +104,11 @@ impl FileTransfer {
 
         if self.state == FileTransferState::Started || self.state == FileTransferState::MissingStart
         {
+            if package_nr < self.next_package {
+                // duplicate of an already accepted package: tolerated, neither stored nor counted
+                // (counting it would trigger the "too many packages" rule while packages are still outstanding)
+                return false;
+            }
             self.recvd_packages += 1;
             if package_nr == self.next_package {
                 // package contains data?
